@@ -601,5 +601,13 @@ class CallProxy (object):
       return self.method(o, *args, **kw)
     print("callProxy object is gone!")
     raise ReventError("callProxy object is gone!")
+  def __eq__ (self, other):
+    # Lets removeListener(handler) find a weakly subscribed handler
+    if isinstance(other, CallProxy): return self is other
+    o = self.obj() if self.obj is not None else None
+    if o is None: return False
+    return (getattr(other, '__self__', None) is o
+            and getattr(other, '__func__', None) is self.method)
+  __hash__ = object.__hash__
   def __str__ (self):
     return "<CallProxy for " + self.name + ">"
